@@ -508,6 +508,19 @@ def run(ctx):
     for f in ('items', 'check_fn', 'max_length', 'preserve_whitespace'):
         ok = any(f in fld.split('.')[-1] for x in P.with_closures(pc) for pos, role, pl, st in iter_uses(x) if is_local_op(pl) for fld in [p_[1:] for p_ in pl['p'] if p_.startswith('.')])
         C.check(ok, 'C01-SIB-fields', 'CharacterDataSpec.%s|read-by-the-value-parser' % f, 'parse_character_data never reads CharacterDataSpec.%s: that column of the specification is ignored while loading' % f, '%s:%d' % (pc.file, pc.line))
+    # "a lenient load may omit only what it reports in a warning": whatever the parser drops it drops behind optional_error, and
+    # optional_error either fails (strict) or RECORDS - there is no path to its Ok exit around the push onto the warning list
+    C.rule('C01-MUST-report', 'ArxmlParser::optional_error reaches an Ok exit only through a push onto ArxmlParser.warnings (no filter, de-duplication or limit in front of the push)')
+    oe = P.find('ArxmlParser::optional_error')
+    if oe is None:
+        C.anchor_missing('C01-MUST-report', 'ArxmlParser::optional_error')
+    else:
+        import events as _E
+        pw = [pos for pos, t in oe.iter_calls() if call_matches(t, r'Vec::<T, A>::push$') and (lambda rp: rp is not None and has_field(rp, 'ArxmlParser.warnings'))(_E.recv_place(oe, t))]
+        oks_ = _E.ok_exit_positions(oe)
+        C.check(bool(pw) and bool(oks_) and all(must_pass(oe, (0, 0), [o_], through=set(pw)) for o_ in oks_), 'C01-MUST-report', 'optional_error|ok-only-after-the-warning-was-recorded',
+                'optional_error can return Ok without having recorded the finding (a condition in front of warnings.push): the caller then skips the offending element / attribute / value, so a lenient load omits content that no warning mentions',
+                oe.where(pw[0]) if pw else '%s:%d' % (oe.file, oe.line), sample={'fn': 'optional_error', 'ok_exits': len(oks_), 'pushes': len(pw)})
     return C.finish('Reader/writer agreement: the escaping tables are extracted from the syntax trees of escape_text and unescape_string and compared pair by pair (completeness, inverse, skip length, arm order); '
                     'MIR provenance shows that every stored string went through the unescaper or a reported fallback, that the preserved-whitespace kind converts the untrimmed input, that values are written only through the escaping writer, '
                     'and that every stored field is emitted. Layout, trimming rules, number formatting and byte identity are not decided.')
